@@ -117,7 +117,7 @@ def run_case(rep, args, case, rng):
                 rep.count("partition_changes")
             if r < 0.6:
                 uniq[0] += 1
-                val = rng.choice(["v%d" % uniq[0], uniq[0] * 7, "x y %d" % uniq[0]])
+                val = rng.choice(["v%d" % uniq[0], uniq[0] * 7, "x y %d" % uniq[0], "v%d" % uniq[0], "", "0", "false", " "])
                 resp = node.request(dict(type="write", key=key, value=val))
                 wit["log"].append(["write", node.name, key, val])
                 if not resp or resp["body"]["type"] != "write_ok":
